@@ -770,6 +770,10 @@ def _has_special(case):
 def _check_special(case):
     if case.get('rex') and case['form'] == 'list':
         case = dict(case, rex=False)
+    if _has_special(case) and case.get('scheme'):
+        # names with # ? ; are only generated as plain local paths: inside a file:// URL those characters are URL syntax
+        # (query / fragment), so what such a URL names is not defined by the statement ("local paths")
+        case = dict(case, scheme='')
     nt, cls, fl = check_case(case)
     if _has_special(case):
         cls = list(cls) + ['special_char_name']
